@@ -3,6 +3,9 @@ module verifharness
 go 1.23
 
 require (
+	github.com/gogo/protobuf v1.3.0
+	github.com/sergi/go-diff v1.0.0
+	github.com/src-d/enry/v2 v2.1.0
 	gopkg.in/src-d/go-git.v4 v4.10.0
 	gopkg.in/src-d/hercules.v10 v10.0.0
 )
@@ -12,7 +15,6 @@ require (
 	github.com/Jeffail/tunny v0.0.0-20180304204616-59cfa8fcb19f // indirect
 	github.com/antchfx/xpath v0.0.0-20180922041825-3de91f3991a1 // indirect
 	github.com/emirpasic/gods v1.9.0 // indirect
-	github.com/gogo/protobuf v1.3.0 // indirect
 	github.com/golang/protobuf v1.2.0 // indirect
 	github.com/grpc-ecosystem/grpc-opentracing v0.0.0-20180507213350-8e809c8a8645 // indirect
 	github.com/jbenet/go-context v0.0.0-20150711004518-d14ea06fba99 // indirect
@@ -23,11 +25,9 @@ require (
 	github.com/opentracing/opentracing-go v1.0.2 // indirect
 	github.com/pelletier/go-buffruneio v0.2.0 // indirect
 	github.com/pkg/errors v0.8.0 // indirect
-	github.com/sergi/go-diff v1.0.0 // indirect
 	github.com/smacker/go-tree-sitter v0.0.0-20191127230340-5368dabef05e // indirect
 	github.com/spf13/cobra v0.0.3 // indirect
 	github.com/spf13/pflag v1.0.3 // indirect
-	github.com/src-d/enry/v2 v2.1.0 // indirect
 	github.com/src-d/gcfg v1.4.0 // indirect
 	github.com/src-d/imports v0.0.0-20191128152346-bf22b73550b0 // indirect
 	github.com/toqueteos/trie v1.0.0 // indirect
